@@ -79,3 +79,9 @@ Proof.
   all: repeat match goal with |- context [if ?c then _ else _] => destruct c eqn:? end; intros H; try discriminate H;
     injection H as <-; unfold in_i64b in *; unfold in_i64; lia.
 Qed.
+
+Lemma arith_pre_refuted_l : exists op a b, in_i64 a /\ in_i64 b /\ arith_pre Checked op a b = Panic
+  /\ eval_binop fa_none op (VInt a) (VInt b) = None.
+Proof. exists Add, (two63 - 1), 1. repeat split; unfold in_i64, two63; try lia. Qed.
+Lemma arith_div0_pre_refuted_l : forall m a, arith_pre m Div a 0 = Panic /\ eval_binop fa_none Div (VInt a) (VInt 0) = None.
+Proof. intros m a. split; reflexivity. Qed.
